@@ -1,4 +1,4 @@
-// Demonstration of the open known findings D7 D8 D9 D10 D12 D13 D14 D15 against the real crate
+// Demonstration of the open known findings D7 D8 D9 D10 D12 D13 D14 D15 D17 against the real crate
 // (public API only).  Each line prints the observed behaviour; nothing here asserts.
 use typed_path::*;
 fn comps(p: &WindowsPath) -> Vec<String> { p.components().map(|c| format!("{c:?}")).collect() }
@@ -29,4 +29,14 @@ fn main() {
     // D15 (C10): remainder that re-reads as a prefix
     let p = WindowsPath::new(r"C:\\a"); let r = p.strip_prefix("C:").unwrap();
     println!("D15 {:?}.strip_prefix(C:) = {:?} comps {:?}; C:.join(r) = {:?}", p, r, comps(r), WindowsPath::new("C:").join(r));
+    // D10 as C04 sees it: the checked join succeeds and the result does not begin with the base
+    let j = WindowsPath::new(r"\\").join_checked("b");
+    println!("D10/C04 \\\\ comps {:?}; join_checked b -> {:?} comps {:?}", comps(WindowsPath::new(r"\\")), j, j.as_ref().map(|p| comps(p)));
+    // D17 (C04): the verbatim prefix named UNC; a join spells a verbatim UNC prefix
+    for (base, arg) in [(r"\\?\UNC", "x"), (r"\\?\UNC\", "a.a"), (r"\\?\UNC", r"x\y")] {
+        let b = WindowsPath::new(base);
+        let j = b.join_checked(arg);
+        println!("D17 {:?} comps {:?}; join_checked {:?} -> {:?} comps {:?}", base, comps(b), arg, j, j.as_ref().map(|p| comps(p)));
+    }
+    println!("D17 control {:?}", WindowsPath::new(r"\\?\pic").join_checked("x").map(|p| comps(&p)));
 }
